@@ -143,7 +143,7 @@ def check_cases(chk, cases):
                     why = why or property_holds_on_table(fr, segs)
             if why or any(isinstance(s, str) for s in itables):
                 chk.violation("%s: segment table written for mask %s: %s" %
-                              (kind, "".join("X" if f != [] else "." for f in trs[0]), why or itables[-1]), case, True)
+                              (kind, mask_text(trs[0]), why or itables[-1]), case, True)
             else:
                 chk.violation("segment tables differ from Segments.chunks: %r vs %r" % (itables, mtables),
                               dict(case, correspondence="Segments.chunks vs _segments/_write"), False)
@@ -169,6 +169,21 @@ def check_cases(chk, cases):
                 chk.violation("model decode differs", dict(case, correspondence="Blocks.v dec vs _build"), False)
 
 
+def mask_text(frames):
+    """X = present, . = missing; long masks as run lengths"""
+    if len(frames) <= 80:
+        return "".join("X" if f != [] else "." for f in frames)
+    runs, prev, n = [], None, 0
+    for f in frames:
+        cur = f != []
+        if cur != prev and prev is not None:
+            runs.append("%d%s" % (n, "X" if prev else "."))
+            n = 0
+        prev, n = cur, n + 1
+    runs.append("%d%s" % (n, "X" if prev else "."))
+    return " ".join(runs[:40]) + (" ..." if len(runs) > 40 else "")
+
+
 def common_runs(frames):
     runs, cur = [], None
     for i, f in enumerate(frames):
@@ -187,7 +202,7 @@ def run(chk):
                 "two-track blocks), plus long random tracks and multi-track blocks; observation = segment tables parsed "
                 "from the written bytes with struct, and the decoded frames (NaN mask + bit patterns) under three "
                 "different pre-fills of numpy.empty; compared with Segments.chunks and the model decoder; "
-                "also: blocks built, used (sized / encoded / compared / printed), then edited IN PLACE to another content of the same shape and used again; non-trivial = at least one gap and one present frame" % (8 if chk.tier == "quick" else 11))
+                "also: blocks built, used (sized / encoded / compared / printed), then edited IN PLACE to another content of the same shape and used again; blocks built from arrays with the same values but another memory layout (column-major, strided, reversed, big-endian, read-only, unaligned); non-trivial = at least one gap and one present frame" % (8 if chk.tier == "quick" else 11))
     chk.assumptions = ["'any process memory state' is modelled as 'any content of the buffer numpy.empty returns'"]
     corpus = codec.load_corpus("C05")
     chk.count("corpus", len(corpus))
@@ -203,7 +218,9 @@ def run(chk):
     chk.count("long tracks", nlong)
     check_cases(chk, cases)
     check_cases(chk, [c for c in codec.large_count_cases(chk) if c[0] in RL_KINDS])
+    check_cases(chk, codec.threshold_cases(chk, RL_KINDS))
     codec.check_inplace(chk, "C05", 200 if chk.tier == "quick" else 3000)
+    codec.check_layouts(chk, "C05", 240 if chk.tier == "quick" else 3000)
     chk.exhaustive = True
     chk.extra["exhaustive_scope"] = "all 2^n masks, n <= %d, per kind" % (8 if chk.tier == "quick" else 11)
 
